@@ -7,6 +7,7 @@ import JT.Model.Location
 import JT.Model.Reply
 import JT.Model.Layout
 import JT.Model.Codec
+import JT.Model.Act
 /-!
 Line-protocol driver: one operation per input line, one result line per operation.
 `<idx> <op> <args…>` ↦ `<idx> <result>`.
@@ -182,6 +183,114 @@ def totModel (ty : String) (b : Bytes) : Option String :=
     | "T0x0801" => some (match run0801 b with | .ok _ => "ok" | .err => "err" | .panic => "panic")
     | _ => none
 
+/-! ### scripted platform-command scenarios over the transition system `JT.Act` -/
+namespace ActSim
+open JT.Act
+
+/-- the requests made so far -/
+def reqs (s : St) : List Nat := List.range s.created
+
+/-- one internal step in a fixed priority order (the scripted scenarios await every action, so the outcome does
+not depend on the order); `none` when the server has nothing to do. Timers are driven by the script (`T`). -/
+def stepInt (s : St) : Option St :=
+  if s.leaveQueued then some { s with leaveQueued := false, registered := false, stopClosed := true }
+  else if s.writerAlive && s.stopClosed then
+    some { s with writerAlive := false,
+                  place := fun r => match s.place r with | .act => .done .closed | .recorded _ => .done .closed | p => p }
+  else match (reqs s).find? (fun r => s.place r = .ops) with
+    | some r =>
+      if s.registered then
+        if actCount s < 3 then some { s with place := upd s.place r .act } else none
+      else some { s with place := upd s.place r (.done .notExist) }
+    | none =>
+      match (reqs s).find? (fun r => s.place r = .act) with
+      | some r =>
+        if s.writerAlive then
+          some { s with place := upd s.place r (.recorded s.serial), stamp := upd s.stamp r (some s.serial),
+                        serial := s.serial + 1, timers := s.serial :: s.timers }
+        else none
+      | none =>
+        match s.doneCh with
+        | t :: rest =>
+          if s.writerAlive then
+            match (reqs s).find? (fun r => s.place r = .recorded t) with
+            | some r => some { s with doneCh := rest, place := upd s.place r (.done .timeout) }
+            | none => some { s with doneCh := rest }
+          else none
+        | [] => none
+
+def runInt : Nat → St → St
+  | 0, s => s
+  | fuel + 1, s => match stepInt s with | some t => runInt fuel t | none => s
+
+def settle (s : St) : St := runInt 200 s
+
+structure Sim where
+  st : St
+  /-- tag ↦ (request, short timeout?) -/
+  calls : List (String × Nat × Bool)
+  connected : Bool
+
+def Sim.init : Sim := ⟨{ JT.Act.init with registered := false, writerAlive := false, stopClosed := true, leaving := true }, [], false⟩
+
+/-- a terminal connects and joins: a fresh connection object (serial 0, live writer, registered key) -/
+def connect (m : Sim) : Sim :=
+  { m with connected := true,
+           st := { m.st with registered := true, stopClosed := false, writerAlive := true, leaving := false,
+                             leaveQueued := false, serial := 0, timers := [], doneCh := [] } }
+
+def disconnect (m : Sim) : Sim :=
+  if m.connected then
+    { m with connected := false, st := settle { m.st with leaving := true, leaveQueued := true } }
+  else m
+
+def stepTok (m : Sim) (tok : String) : Sim :=
+  if tok = "J" then connect m
+  else if tok = "X" then disconnect m
+  else if tok = "T" then
+    -- every short-timeout command still recorded times out
+    let fire := m.calls.filterMap fun c =>
+      if c.2.2 then match m.st.place c.2.1 with | .recorded t => some t | _ => none else none
+    { m with st := settle { m.st with timers := m.st.timers.filter (fun t => !fire.contains t), doneCh := m.st.doneCh ++ fire } }
+  else if tok.startsWith "C" then
+    let tag := ((tok.drop 1).dropRight 1).toString
+    let short := tok.endsWith "S"
+    let r := m.st.created
+    { m with calls := m.calls ++ [(tag, r, short)],
+             st := settle { m.st with created := r + 1, place := upd m.st.place r .ops } }
+  else if tok.startsWith "R" then
+    match m.calls.find? (fun c => c.1 = (tok.drop 1).toString) with
+    | some c =>
+      if m.connected && m.st.writerAlive then
+        match m.st.place c.2.1 with
+        | .recorded e => { m with st := settle { m.st with place := upd m.st.place c.2.1 (.done (.response e)) } }
+        | _ => m
+      else m
+    | none => m
+  else m   -- H and W: ordinary traffic / a response nobody waits for: no effect on the commands
+
+def showResult (s : St) (r : Nat) : String :=
+  match s.place r with
+  | .done (.response _) => "resp"
+  | .done .timeout => "timeout"
+  | .done .writeFail => "fail"
+  | .done .closed => "fail"
+  | .done .notExist => "noexist"
+  | _ => "pending"
+
+def run (script : String) : String :=
+  let toks := script.splitOn ","
+  let m := disconnect (toks.foldl stepTok Sim.init)
+  let sorted := sortStrs (m.calls.map fun c => s!"{c.1}={showResult m.st c.2.1}")
+  let hb := (toks.filter (· = "H")).length
+  -- heartbeats are only sent (and answered) while a terminal is connected
+  let hbLive := (toks.foldl (fun (acc : Nat × Bool) t =>
+      if t = "J" then (acc.1, true) else if t = "X" then (acc.1, false)
+      else if t = "H" && acc.2 then (acc.1 + 1, acc.2) else acc) (0, false)).1
+  let _ := hb
+  s!"{" ".intercalate sorted} hb={hbLive}/{hbLive}"
+end ActSim
+
 def runOp (op : String) (args : List String) : String :=
   match op, args with
   | "dec", [f] =>
@@ -218,6 +327,8 @@ def runOp (op : String) (args : List String) : String :=
     match ofHex body with
     | none => "bad-op"
     | some b => (totModel ty b).getD "skip"
+  | "act", [script] => ActSim.run script
+  | "actstress", [_] => "skip"
   | "stab", [sess] =>
     -- C09: number of messages delivered; after the D12 repair every delivered field is an owned copy
     match parseSession sess with
